@@ -21,6 +21,7 @@ pub fn udp_socket(
         use std::os::unix::prelude::FromRawFd;
 
         tracing::trace!("udp_socket local: {:?} remote: {:?}", local, remote);
+        let reuse_addr = local.port() != 0;
         let local: SockaddrStorage = local.into();
         let remote: Option<SockaddrStorage> =
             remote.filter(|x| !x.ip().is_unspecified()).map(Into::into);
@@ -30,7 +31,12 @@ pub fn udp_socket(
             SockFlag::empty(),
             SockProtocol::Udp,
         )?;
-        setsockopt(fd, ReuseAddr, &true)?;
+        // only for an explicitly requested port: with SO_REUSEADDR the kernel may hand out an
+        // ephemeral port that another such socket already uses, and the two sessions would then
+        // receive each other's datagrams
+        if reuse_addr {
+            setsockopt(fd, ReuseAddr, &true)?;
+        }
         if transparent {
             #[cfg(target_os = "linux")]
             {
